@@ -213,6 +213,114 @@ struct CSItem : Item
   }
 };
 
+// ---- element types that have their OWN operator<< overload, as vector elements: the vector writer must go
+// through the per-element overload (const char* -> length + characters, bool -> one byte, array wrapper ->
+// count + elements).  Written through one type, read back through the corresponding OWNING type RT.
+#define C15_OWNING_ITEM_COMMON(RT)                                                              \
+  RT v, dst;                                                                                    \
+  void put(WriteStream &w) override { emitT(w); }                                               \
+  void putOwn(WriteSizeCalculator &s) override { emitT(s); }                                    \
+  void putOwn(BufferWriter &s) override { emitT(s); }                                           \
+  void putOwn(FixedBufferWriter &s) override { emitT(s); }                                      \
+  void getShow(BufferReader &r, std::ostream &o, int) override { RT x; r >> x; C<RT>::show(x, o); } \
+  void prefill(int mode) override { Stale<RT>::fill(dst, v, mode); }                            \
+  void getInto(BufferReader &r, std::ostream &o) override { r >> dst; C<RT>::show(dst, o); }    \
+  void showValue(std::ostream &o) override { C<RT>::show(v, o); }                               \
+  void getBase(ReadStream &r, std::ostream &o) override { RT x; r >> x; C<RT>::show(x, o); }
+
+struct VCSItem : Item   // std::vector<const char *>, read back as std::vector<std::string>
+{
+  C15_OWNING_ITEM_COMMON(std::vector<std::string>)
+  VCSItem(TS &ts) { C<std::vector<std::string>>::parse(ts, v); }
+  template <typename S>
+  void emitT(S &s)
+  {
+    std::vector<const char *> p;
+    for (auto &x : v) p.push_back(x.c_str());
+    s << p;
+  }
+};
+struct VVCSItem : Item  // std::vector<std::vector<const char *>>
+{
+  C15_OWNING_ITEM_COMMON(std::vector<std::vector<std::string>>)
+  VVCSItem(TS &ts) { C<std::vector<std::vector<std::string>>>::parse(ts, v); }
+  template <typename S>
+  void emitT(S &s)
+  {
+    std::vector<std::vector<const char *>> p(v.size());
+    for (size_t i = 0; i < v.size(); ++i)
+      for (auto &x : v[i]) p[i].push_back(x.c_str());
+    s << p;
+  }
+};
+struct VBItem : Item    // std::vector<bool> (there is no operator>> that compiles for it), read back as vector<uint8_t>
+{
+  C15_OWNING_ITEM_COMMON(std::vector<uint8_t>)
+  VBItem(TS &ts) { C<std::vector<uint8_t>>::parse(ts, v); }
+  template <typename S>
+  void emitT(S &s)
+  {
+    std::vector<bool> b;
+    for (auto x : v) b.push_back(x != 0);
+    s << b;
+  }
+};
+template <typename E>
+struct VAItem : Item    // std::vector<OwnedArray<E>>: count, then each array as count + elements
+{
+  std::vector<std::vector<E>> data;
+  std::vector<std::vector<uint8_t>> dst;
+  VAItem(TS &ts)
+  {
+    size_t n = std::stoull(ts.next());
+    data.resize(n);
+    for (size_t k = 0; k < n; ++k) {
+      size_t c = std::stoull(ts.next());
+      auto b = unhex(ts.next());
+      if (b.size() != c * sizeof(E)) throw std::logic_error("harness: array size");
+      data[k].resize(c);
+      if (c) std::memcpy((void *)data[k].data(), b.data(), b.size());
+    }
+  }
+  template <typename S>
+  void emitT(S &s)
+  {
+    std::vector<OwnedArray<E>> arrs;
+    for (auto &d : data) arrs.emplace_back(d);
+    s << arrs;
+  }
+  void put(WriteStream &w) override { emitT(w); }
+  void putOwn(WriteSizeCalculator &s) override { emitT(s); }
+  void putOwn(BufferWriter &s) override { emitT(s); }
+  void putOwn(FixedBufferWriter &s) override { emitT(s); }
+  void readShow(ReadStream &r, std::ostream &o)
+  {
+    size_t n;
+    r >> n;
+    if (n > (size_t(1) << 20)) throw std::runtime_error("harness: count longer than any stream");
+    o << n;
+    dst.assign(n, std::vector<uint8_t>());
+    for (size_t k = 0; k < n; ++k) {
+      size_t c;
+      r >> c;
+      size_t bytes = c * sizeof(E);
+      if (bytes > (size_t(1) << 26)) throw std::runtime_error("harness: array longer than any stream");
+      dst[k].resize(bytes + 1);
+      r.read(dst[k].data(), bytes);
+      o << " " << c << " " << hex(dst[k].data(), bytes);
+    }
+  }
+  void getShow(BufferReader &r, std::ostream &o, int) override { readShow(r, o); }
+  void prefill(int mode) override { dst.assign(mode + 1, std::vector<uint8_t>(3, 0xA5)); }
+  void getInto(BufferReader &r, std::ostream &o) override { readShow(r, o); }
+  void getBase(ReadStream &r, std::ostream &o) override { readShow(r, o); }
+  void showValue(std::ostream &o) override
+  {
+    o << data.size();
+    for (auto &d : data) o << " " << d.size() << " " << hex(d.data(), d.size() * sizeof(E));
+  }
+};
+
 // array wrappers: W = 0 OwnedArray, 1 FixedArray, 2 ArrayView, 3 FixedArrayView
 template <typename E, int W>
 struct AItem : Item
@@ -348,6 +456,12 @@ static void initRegistry()
   reg<std::vector<std::vector<std::vector<uint8_t>>>>("v:v:v:u8");
   reg<std::vector<std::vector<std::vector<std::string>>>>("v:v:v:s");
   registry()["cs"] = [](TS &ts) -> Item * { return new CSItem(ts); };
+  reg<bool>("b");
+  registry()["v:b"] = [](TS &ts) -> Item * { return new VBItem(ts); };
+  registry()["v:cs"] = [](TS &ts) -> Item * { return new VCSItem(ts); };
+  registry()["v:v:cs"] = [](TS &ts) -> Item * { return new VVCSItem(ts); };
+  registry()["v:a:own:u8:d"] = [](TS &ts) -> Item * { return new VAItem<uint8_t>(ts); };
+  registry()["v:a:own:u32:d"] = [](TS &ts) -> Item * { return new VAItem<uint32_t>(ts); };
   regArr<uint8_t>("u8");
   regArr<uint32_t>("u32");
   regArr<float>("f32");
@@ -382,6 +496,7 @@ static std::string runT(TS &ts)
     for (auto &it : items) it->put(wc);
     out << " calc=" << wc.writtenSize;
   }
+  if (std::getenv("C15_ENCODE_ONLY")) return out.str();   // used to show what was WRITTEN for a case whose read-back kills the harness
   // ---- decode from the writer's own buffer; end() before and after every value
   {
     std::shared_ptr<AbstractArray<uint8_t>> buf = bw.buffer;
